@@ -8,6 +8,7 @@
 #[global_allocator]
 static ALLOC: vlib::alloc::Counting = vlib::alloc::Counting;
 
+mod aging;
 mod common;
 mod common_assets;
 mod corpus;
